@@ -263,8 +263,12 @@ func (s *Stream) writeFallback(streamStatus uint32, err error) error {
 		s.id, s.sendBuf.Len(), err.Error(), s.sendBuf.isFromShareMemory())
 	var event fallbackDataEvent
 	event.encode(len(event)+s.sendBuf.Len(), s.session.communicationVersion, s.id, streamStatus)
-	data := make([]byte, 0, s.sendBuf.Len()+len(event))
+	// a polling event goes first, so that the peer drains what this session queued earlier in share memory
+	// (maybe without a wake-up of its own yet) before it sees the socket-carried data.
+	polling := pollingEventWithVersion[s.session.communicationVersion]
+	data := make([]byte, 0, s.sendBuf.Len()+len(event)+len(polling))
 	underlyingSlices := s.sendBuf.underlyingData()
+	data = append(data, polling...)
 	data = append(data, event[:]...)
 	for i := range underlyingSlices {
 		data = append(data, underlyingSlices[i]...)
@@ -332,9 +336,11 @@ func (s *Stream) close() error {
 			}
 			if err != nil {
 				// notify fallback
-				var streamCloseEvent [headerSize + 4]byte
-				header(streamCloseEvent[:]).encode(headerSize+4, s.session.communicationVersion, typeStreamClose)
-				binary.BigEndian.PutUint32(streamCloseEvent[headerSize:], s.id)
+				// preceded by a polling event: data queued earlier in share memory must be consumed first
+				var streamCloseEvent [headerSize + headerSize + 4]byte
+				copy(streamCloseEvent[:headerSize], pollingEventWithVersion[s.session.communicationVersion])
+				header(streamCloseEvent[headerSize:]).encode(headerSize+4, s.session.communicationVersion, typeStreamClose)
+				binary.BigEndian.PutUint32(streamCloseEvent[2*headerSize:], s.id)
 				return s.session.waitForSend(nil, streamCloseEvent[:])
 			}
 			return s.session.wakeUpPeer()
